@@ -88,14 +88,19 @@ PARTIAL = ("the composite commands (set/incr with tags, delete_tags, get_or_set,
            "inside invalidate_further() are judged by the oracle only; setup() while a transaction is open is not generated; "
            "pattern commands are routed by the pattern's own prefix (mirrored, "
            "not judged); transaction semantics proper are C03/C04; more than 4 tasks / 6 registered prefixes are not sampled; "
-           "composites: the on-remove callback asks the backend of exactly '_tag:' (lru_cache'd), which is the longest-prefix backend of "
-           "'_tag:<tag>' only while no registered prefix extends '_tag:' and '_tag:' is not registered again after its first use "
-           "(remove_callback_routed_by_longest_prefix states the hypothesis; such tables are not generated); what the callback does "
+           "composites: the on-remove callback resolves the backend of '_tag:<tag>' on every call by the tag key's longest prefix "
+           "(D48; registrations of '_tag:' and of prefixes reaching into the tag part are part of the histories); "
+           "what the callback does "
            "inside a transaction is not exercised (tag registries and transactions are not combined); lock()'s liveness probe is recognised "
            "as 'a PING with message LOCK right after a refused set_lock of the same caller' and judged by the lock key (D43); cache.lock is run with "
            "wait=False and with wait=True/check_interval=1 against a lock that expires (the CacheBackendInteractionError branch of "
            "lock() needs a failing backend: C19); delete_tags' loop is exercised up to its second round (100 / 101 members); "
-           "the callback asks the tags backend's own control state before talking to it (defect D41, repaired as e3dff8d)")
+           "the callback asks the tags backend's own control state before talking to it (defect D41, repaired as e3dff8d); "
+           "a transaction's COMMIT under a disable made after its writes were accepted (set inside the block, cache.disable() before "
+           "the block ends: the transaction wrapper issues set_many / delete_many / set_lock / unlock directly) is observed, not judged - "
+           "only 'fully disabled during the whole transaction => the commit touches nothing' is (deferred writes are C03/C04's business); "
+           "user middlewares (setup(middlewares=...)), incl. the shipped helpers add_prefix / all_keys_lower that drop default= of "
+           "get_many, are outside the model and not exercised")
 
 P_QUICK = ["", "a", "b", "ab", "a:", "ab:c", "ba", ":"]
 P_THORO = P_QUICK + ["aa", "ab:", "A", "é", "b:"]
@@ -147,6 +152,16 @@ D38 = "D41:remove-callback-ignores-disabled-tags-backend"
 # routed on the facade by the TEXT "LOCK" (default-prefix backend) instead of by the lock key; since the fix the probe is
 # `_lock_probe(key)` = PING with message LOCK routed and disable-checked by the lock key's backend.
 D43 = "D43:lock-probe-routed-by-message-text"
+# Found by the independent engineers (round 4), repaired together with this model:
+# D46 - `_invalidate_middleware` (validation.py) handed the replacing deletion to the backend directly, also while DELETE /
+#       DELETE_MANY / DELETE_MATCH was disabled for it: set("a",1); disable(Command.DELETE); with invalidate_further(): get("a")
+#       deleted the key.  Repaired: the middleware asks backend.is_disable(<the deleting command>) first; the read is answered
+#       as a miss either way.
+# D48 - `CommandsTagsWrapper._get_tags_backend` was lru_cache(maxsize=1): after a later setup() / setup_tags_backend() the
+#       on-remove bookkeeping kept talking to the OLD backend.  Repaired: the callback resolves the backend of `_tag:<tag>`
+#       on every call, by the tag key's own longest prefix (as the tagged writes do).
+D46 = "D46:invalidate-further-ignores-disabled-delete"
+D48 = "D48:tags-backend-memo-survives-registration"
 # no finding is ever registered from here: known findings live in /verif/known_findings.json only (chk.violation matches them)
 LOCAL_KNOWN: dict[str, str] = {}
 KNOWN_SEEN: dict[str, int] = {}
@@ -389,17 +404,15 @@ def issued_oracle(i, op, st, regs):
                                     f"reports set_remove disabled" + (" (fully disabled)" if b in fulloff else "")))
             for key in e["keys"]:
                 if longest(regs, key) != b:
-                    bad.append((i, "routing-remove-callback", f"{op}: the on-remove callback issued {rc.fmt_call(e)} but the longest "
+                    bad.append((i, D48, f"{op}: the on-remove callback issued {rc.fmt_call(e)} but the longest "
                                                               f"registered prefix of {key!r} belongs to backend {longest(regs, key)}"))
             continue
         if e["depth"] == 0:
             cmd = e["cmd"]
             if cmd != "init":
-                enabled = cmd not in off
-                if not enabled and inv and cmd in REPLACERS:
-                    enabled = any(src not in off for src in REPLACERS[cmd])     # the deletion an enabled read is replaced by
-                if not enabled:
-                    bad.append((i, f"disabled-{cmd}-issued", f"{op}: {rc.fmt_call(e)} issued although backend {b} reports {cmd} disabled"
+                if cmd in off:
+                    # inside invalidate_further() the deletion an enabled read is replaced by must itself be enabled (D46)
+                    bad.append((i, D46 if (inv and cmd in REPLACERS) else f"disabled-{cmd}-issued", f"{op}: {rc.fmt_call(e)} issued although backend {b} reports {cmd} disabled"
                                                              + (" (inside invalidate_further())" if inv else "")))
             for key in e["keys"]:
                 if longest(regs, key) != b:
@@ -598,6 +611,10 @@ def spec_check(sc, run):
             inv = bool(st.get("inv"))
             # inside invalidate_further() a retrieve command is replaced by the deletion of what it would have read
             expect_cmd = RETRIEVE_DEL[name] if (inv and name in RETRIEVE_DEL) else name
+            # ... which is handed over only if the deleting command itself is enabled for the backend (D46)
+            disdel = {int(b): d for b, d in st.get("disdel", {}).items()} if (inv and name in RETRIEVE_DEL) else {}
+            enabled_dis = dis
+            dis = {b: (d or bool(disdel.get(b))) for b, d in dis.items()}      # backends that must stay silent
             routes = [longest(regs, key) for key in ks]
             if name in rc.GLOBAL:
                 expect_nc = False
@@ -635,7 +652,10 @@ def spec_check(sc, run):
             for e in calls:
                 if dis.get(e["b"]):
                     sig = D22F if (name in ("scan", "get_match") and e["cmd"] != name) else f"disabled-{name}-issued"
-                    bad.append((i, sig, f"{op}: {rc.fmt_call(e)} issued although backend {e['b']} reports {name} disabled"
+                    if not enabled_dis.get(e["b"]):
+                        sig = D46 if e["cmd"] == expect_cmd else f"disabled-{expect_cmd}-issued"
+                    bad.append((i, sig, f"{op}: {rc.fmt_call(e)} issued although backend {e['b']} reports "
+                                        f"{name if enabled_dis.get(e['b']) else expect_cmd} disabled"
                                         + (" (inside invalidate_further())" if inv else "")
                                         + ("" if isinit.get(e["b"], True) else " (backend was never initialised)")))
             # (3) every enabled backend that owns a key is asked exactly once, with its keys in caller order
@@ -670,7 +690,7 @@ def spec_check(sc, run):
                     ok = isinstance(r, tuple) and len(r) == len(ks)
                     if ok:
                         for j, (x, b) in enumerate(zip(r, routes)):
-                            if dis.get(b):
+                            if enabled_dis.get(b):
                                 ok = ok and x is rc.DFLT
                             elif replaced:
                                 ok = ok and x is None
@@ -680,19 +700,19 @@ def spec_check(sc, run):
                                     y = None       # a bit field is not a value: get_many keeps its position with None
                                 ok = ok and (x is y or rc.canon(x) == rc.canon(y))
                     if not ok:
-                        bad.append((i, "get_many-order" if not any(dis.values()) else "disabled-get_many-shape",
+                        bad.append((i, "get_many-order" if not any(enabled_dis.values()) else "disabled-get_many-shape",
                                     f"{op}: answered {rc.canon(r)}; single-key reads on the owning backends give "
-                                    f"{[rc.canon(st['direct'][str(b)][j]) for j, b in enumerate(routes)] if 'direct' in st else '?'} (disabled: {dis})"
+                                    f"{[rc.canon(st['direct'][str(b)][j]) for j, b in enumerate(routes)] if 'direct' in st else '?'} (disabled: {enabled_dis})"
                                     + (" (inside invalidate_further())" if inv else "")))
                     elif not written and not st["intx"] and not replaced:
                         for x, key, b in zip(r, ks, routes):
-                            exp = rc.DFLT if (dis.get(b) or "!" in key or "*" in key) else f"v{b}|{key}"
+                            exp = rc.DFLT if (enabled_dis.get(b) or "!" in key or "*" in key) else f"v{b}|{key}"
                             if not (x is exp or x == exp):
                                 bad.append((i, "get_many-order", f"{op}: answered {rc.canon(r)}, backend {b} holds {exp!r} for {key!r}"))
                                 break
                 elif name in rc.KEYED:
                     b = routes[0]
-                    if dis.get(b):
+                    if enabled_dis.get(b):
                         exp_ok = (r is rc.DFLT) if name == "get" else (r == []) if name in ("scan", "get_match") else (r is None)
                         if not exp_ok:
                             bad.append((i, f"disabled-{name}-shape", f"{op}: disabled, answered {rc.canon(r)}"))
@@ -1476,14 +1496,15 @@ def gen_conc_enum():
 
 TAG = rc.TAG_PREFIX
 # tables for the composites: with and without a dedicated tags backend, with a prefix shorter than `_tag:`, without a default
-COMP_TABLES = [[""], ["", TAG], ["", "a", TAG], ["a", TAG, ""], ["", "_t", "a"], ["", TAG, "ab", "a"], ["a", TAG]]
+COMP_TABLES = [[""], ["", TAG], ["", "a", TAG], ["a", TAG, ""], ["", "_t", "a"], ["", TAG, "ab", "a"], ["a", TAG],
+               ["", TAG, TAG + "t"]]
 COMP_CMDS = ["set", "incr", "get", "set_add", "set_remove", "set_pop", "delete", "delete_many", "delete_match", "set_lock",
              "unlock", "ping"]
 
 
 def comp_world(prefixes, rng):
     """keys, tag registry and preloaded tag sets for a table"""
-    base = [p for p in prefixes if p != TAG]
+    base = [p for p in prefixes if not p.startswith(TAG)]
     keys = []
     for p in base:
         keys += [p + "k", p + "k2"]
@@ -1591,6 +1612,54 @@ def gen_comp_tasks(rng, prefixes):
     return {"regs": regs, "ops": ops, "kind": "comp_tasks", "tagreg": tagreg, "tagsets": tagsets}
 
 
+def gen_comp_rereg_enum():
+    """the tag bookkeeping across a (re-)registration of the tags backend, enumerated: tagged write + delete (the callback has
+    resolved its backend once), then `_tag:` (or a prefix reaching into the tag part, or the default prefix) is set up -
+    for the first time or again, enabled or disabled, by the same or another task -, then tagged write + delete again"""
+    for table in ([["", 0]], [["", 0], [TAG, 1]]):
+        nb = len(table)
+        for target in (TAG, TAG + "t", ""):
+            for dis in (None, "kw"):
+                for actor in (0, 1):
+                    ops = [["fork", 0, 1],
+                           ["comp", 0, "set_tags", ["k"], ["t1"]], ["comp", 0, "one:delete", ["k"], []],
+                           ["comp", 1, "one:delete", ["k2"], []],
+                           ["setup", actor, target, nb, {"disable": dis} if dis else {}],
+                           ["comp", 0, "set_tags", ["k"], ["t1", "t2"]], ["comp", 0, "one:delete", ["k"], []],
+                           ["comp", 1, "set_tags", ["k3"], ["t2"]], ["comp", 1, "one:delete_many", ["k3", "k"], []],
+                           ["comp", 0, "delete_tags", [], ["t4"]], ["comp", 1, "invalidate", ["k*"], []]]
+                    yield {"regs": [list(r) for r in table], "ops": ops, "kind": "comp_rereg_enum",
+                           "tagreg": [["t1", "k"], ["t2", "k{x}"]], "tagsets": {"t4": ["k", "k2", "k3"]}}
+
+
+def gen_comp_rereg(rng, prefixes):
+    """random histories: composites (tag bookkeeping included) interleaved with registrations of `_tag:`, of prefixes reaching
+    into the tag part and of ordinary prefixes"""
+    regs = mk_regs(prefixes, rng)
+    nb = len(regs)
+    keys, absent, tagreg, tagsets = comp_world(prefixes, rng)
+    live, ops = [0], []
+
+    def use(n):
+        for _ in range(n):
+            c = rng.choice(live)
+            ops.append(rng.choice(comp_body(c, keys, absent, rng, held=False)))
+
+    use(rng.randint(2, 4))
+    for _ in range(rng.randint(1, 3)):
+        if rng.random() < 0.3 and len(live) < 3:
+            ops.append(["fork", rng.choice(live), len(live)])
+            live.append(len(live))
+        p = rng.choice([TAG, TAG, TAG + "t", TAG + "t1", "", rng.choice(prefixes)])
+        ops.append(["setup", rng.choice(live), p, nb, rand_opts(rng, 0.25, 0.25)])
+        nb += 1
+        c = rng.choice(live)
+        k = rng.choice(keys)
+        ops += [["comp", c, "set_tags", [k], ["t1", "t2"]], ["comp", rng.choice(live), "one:delete", [k], []]]
+        use(rng.randint(1, 3))
+    return {"regs": regs, "ops": ops, "kind": "comp_rereg", "tagreg": tagreg, "tagsets": tagsets}
+
+
 def gen_comp_big(rng):
     """delete_tags of a tag with exactly 100 and with 101 members: the second round of the `while True` loop"""
     for n in (100, 101):
@@ -1671,6 +1740,9 @@ def interesting(sc, run):
                 tags.add("backend_initialised_by_enabled_command")
             if st.get("inv") and any(e["cmd"] in RETRIEVE_DEL.values() and e["cmd"] != op[2] for e in rc.outer(st["log"])):
                 tags.add("enabled_read_replaced_by_deletion")
+            if st.get("inv") and op[2] in RETRIEVE_DEL and any(
+                    st.get("disdel", {}).get(str(b)) and not dis_.get(b) for b in owners if b is not None):
+                tags.add("enabled_read_inside_invalidate_further_with_its_deletion_disabled")
             if any(dis_.get(b) and b in cfg_dis and setup_by.get(b, 0) != op[1] for b in owners if b is not None):
                 tags.add("configured_disabled_backend_used_by_task_that_did_not_set_it_up")
         if op[0] == "comp":
@@ -1698,6 +1770,10 @@ def interesting(sc, run):
                         tags.add("set_add_routed_to_dedicated_tags_backend")
             if any(is_callback(e) for e in log):
                 tags.add("remove_callback_issued_set_remove")
+                if any(o[0] == "setup" and o[2].startswith(TAG) for o in sc["ops"][:i]):
+                    tags.add("remove_callback_after_tags_backend_was_registered_again")
+                if any(is_callback(e) and longest(regs, TAG) != e["b"] for e in log):
+                    tags.add("remove_callback_follows_prefix_reaching_into_the_tag")
             tb = longest(regs, TAG)
             if any(st["keytags"].get(k) for e in calls0 for inv_ in e.get("removed", []) for k in inv_) and tb is not None \
                     and "set_remove" in disall.get(tb, ()):
@@ -1904,6 +1980,10 @@ def generate(chk: Check):
         cases.append(("comp_tasks", gen_comp_tasks(rng, rng.choice(COMP_TABLES))))
     for sc in gen_comp_big(rng):
         cases.append(("comp_big", sc))
+    for sc in gen_comp_rereg_enum():
+        cases.append(("comp_rereg_enum", sc))
+    for _ in range(chk.budget(40, 600)):
+        cases.append(("comp_rereg", gen_comp_rereg(rng, rng.choice(COMP_TABLES))))
     for state in ["set_add_off", "set_remove_off", "tag_prefix_off", "set_off", "full", "none"]:
         for _ in range(chk.budget(2, 12)):
             cases.append(("dec_tags", gen_dec_tags(rng, rng.choice([["", TAG], [""], ["", "a", TAG]]), state)))
@@ -1998,7 +2078,9 @@ def run(chk: Check) -> int:
                 "per command, thorough: all) x {disable, disabling(), inside invalidate_further(), inherited by a child while a sibling "
                 "does not, never-initialised backends} (quick: one, thorough: three of the five, rotating), the same for all backends at once and inside "
                 "a transaction, delete_tags of 100 / 101 members (enumerated); random control operations of up to 3 tasks with composites "
-                "in between (sampled). distinct = distinct (table, op list)",
+                "in between (sampled); tag bookkeeping across registrations: tagged write + delete / `_tag:`, a prefix reaching into the tag part or "
+                "the default prefix set up (first time or again, enabled or disabled, same or other task) / tagged write + delete again "
+                "(enumerated), random histories of composites and registrations (sampled). distinct = distinct (table, op list)",
         "exhaustive": True,
         "exhaustive_subspace": f"all {n_sets} prefix sets of size <= 4 over a {n_alpha}-string alphabet x all keys (routing); "
                                f"all 28 single-command disabled sets + 'all' x 4 transaction nestings x all {len(rc.INVOKE)} public commands; "
